@@ -23,7 +23,7 @@ import (
 
 func init() { generators = append(generators, genFormats) }
 
-const repoScriptGo = "/repo/script.go"
+var repoScriptGo = repoRoot() + "/script.go"
 
 type scriptLayout struct {
 	ok                  bool
